@@ -125,9 +125,9 @@ def classify(res, fns, unit_name='unit'):
 
 
 def match_fn_time(times, fn, unit='unit'):
-    want = f'{unit}::{fn["mod"]}::{fn["name"]}'
-    suffix = {'main': '', 'reach': '__reach', 'probe': f'__probe_{fn.get("probe")}', 'stub': ''}[fn['variant']]
-    want += suffix
+    parts = fn['name'].split('::')
+    parts[-1] = fn.get('out_name', parts[-1])
+    want = f'{unit}::{fn["mod"]}::' + '::'.join(parts)
     if want in times:
         return times[want]
     # trait impl methods and inline modules: match by last segment
